@@ -123,8 +123,11 @@ def occurrences(tz: str, spec, lo: int, hi: int, anchor_dt: int | None = None, l
         return sorted(set(out))
     if k == 'interval':
         _, start, step, f = spec
-        a = start if start is not None else anchor_dt
-        if a is None:
+        if start is not None:
+            a = start
+        elif anchor_dt is not None:
+            a = anchor_dt + NS_US       # an interval without start is anchored 1 µs after its first query
+        else:
             return None
         k0 = (lo - a) // step + 1
         k1 = (hi - a) // step
@@ -162,7 +165,9 @@ def check_least(tz: str, spec, dt: int, result: str, anchor_dt: int | None, hori
         if occ[0] != r:
             return f'earlier admissible occurrence {occ[0]} skipped (returned {r}, reference {dt})'
         return None
-    if result == 'err InfiniteLoopDetectedError':
+    # an error is not a computed occurrence; only for a plain time-of-day trigger (search horizon 99 999 days)
+    # does InfiniteLoopDetectedError contradict an admissible occurrence within the next 500 days
+    if result == 'err InfiniteLoopDetectedError' and spec[0] == 'time':
         occ = occurrences(tz, spec, dt, dt + horizon_days * NS_DAY, anchor_dt)
         if occ:
             return f'InfiniteLoopDetectedError although {occ[0]} is an admissible occurrence (reference {dt})'
